@@ -41,7 +41,7 @@ FLOOR = {"quick": 15, "thorough": 100}
 def parts(tier):
     if tier == "quick":
         return [{"name": "machine", "n": 64}, {"name": "subprocess", "n": 16}, {"name": "seed", "n": 32}]
-    return [{"name": "machine", "n": 1500}, {"name": "subprocess", "n": 480}, {"name": "seed", "n": 600}]
+    return [{"name": "machine", "n": 800}, {"name": "subprocess", "n": 240}, {"name": "seed", "n": 480}]
 
 
 def small_case(**kw):
